@@ -13,7 +13,7 @@ META = dict(
                 "with acyclic directed part (int and float dtype) and (b) every DAG pattern with *symbolic real weights*; "
                 "each output entry is compared with the definition; weight preservation is a term equality decided by z3 "
                 "for all weights of the pattern at once.",
-    bounds=dict(quick="binary PDAGs p <= 3 (all 62+...) and p = 4 with <= 4 edges; weighted DAGs p <= 4 (543 patterns, all real weights); all node subsets S",
+    bounds=dict(quick="binary PDAGs p <= 3 (all 62+...) and p = 4 with <= 4 edges; weighted DAGs p <= 4 (543 patterns, all real weights); all node subsets S; wide: 4-node weighted DAGs / 3-node PDAGs embedded at nodes 11,1,9,0 of a 12-node graph",
                 thorough="binary PDAGs p <= 4 (all 3,608 with acyclic directed part); weighted DAGs p <= 5 restricted to <= 6 edges"),
     outside=["weighted PDAGs with undirected edges (only DAG weight matrices are quantified over)", "p > 5"],
     stubs=["numpy -> symnp"],
@@ -103,7 +103,7 @@ def _checks(u, log, M, pat, entries, p, weighted):
     ic = ok('is_complete', log.call(u, 'is_complete', M))
     if ic is not None:
         cl.append(('is_complete <=> every pair adjacent', bool(ic) == all(adj(i, j) for i in range(p) for j in range(i + 1, p))))
-    for S in I.subsets(range(p)):
+    for S in I.subsets(I.universe(pat)):
         r = ok('induced_subgraph', log.call(u, 'induced_subgraph', set(S), M))
         if r is not None:
             good = r.shape == (p, p)
@@ -205,6 +205,10 @@ def obligations(tier):
                              "all DAG patterns on %d nodes with symbolic real weights" % p, expect=('checked',), weight=p))
     ob.append(Obligation('weighted_dag_p4', h_weighted, I.dag_pair_cubes(4, 3),
                          "all DAG patterns on 4 nodes with symbolic real weights", expect=('checked',), weight=20))
+    ob.append(Obligation('weighted_dag_wide_p12', h_weighted, I.embed_cubes(12, [11, 1, 9, 0], 3, dag=True),
+                         "all 4-node DAG patterns with symbolic weights embedded at nodes 11, 1, 9, 0 of a 12-node graph", expect=('checked',), weight=40))
+    ob.append(Obligation('binary_pdag_wide_p12', h_binary('int'), I.embed_cubes(12, [11, 1, 9], 1),
+                         "all 3-node binary PDAGs embedded at nodes 11, 1, 9 of a 12-node graph", expect=('checked',), weight=20))
     if tier == 'quick':
         ob.append(Obligation('binary_pdag_int_p4_le4', h_binary('int'), I.pair_cubes(4, 2, dict(max_edges=4)),
                              "binary PDAGs on 4 nodes with at most 4 edges, dtype int", expect=('checked',), weight=20))
@@ -278,7 +282,7 @@ def replay(rec):
                 bad.append('degrees[%d]' % i)
         if bool(u.is_complete(P.copy())) != all(adj(i, j) for i in range(p) for j in range(i + 1, p)):
             bad.append('is_complete')
-        for S in I.subsets(range(p)):
+        for S in I.subsets(I.universe([[1 if P[i][j] != 0 else 0 for j in range(p)] for i in range(p)])):
             r = u.induced_subgraph(set(S), P.copy())
             for i in range(p):
                 for j in range(p):
